@@ -3,7 +3,7 @@ CONSTANTS Menu = "C02"
  Layouts = {"siblings", "nested", "root"}
  AllPlants = FALSE
  Lite = TRUE
- Flavours <- Flav_plain
+ Flavours <- Flav_alias
 INIT HInit
 NEXT HNext
 INVARIANT EmitCase
